@@ -560,6 +560,9 @@ func mapArg(v Value) *MapV {
 // obligation: assert c on the current path.
 func (e *Exec) obligation(label string, c *Term) {
 	e.stats.obligations++
+	if len(e.oblLabels) < 12 {
+		e.oblLabels = append(e.oblLabels, label)
+	}
 	e.sol.label = "obligation:" + label
 	if c.IsTrue() {
 		e.stats.discharged++
